@@ -12,6 +12,7 @@ pub mod c08;
 pub mod c09;
 pub mod c10;
 pub mod c11;
+pub mod c12;
 pub mod c13;
 pub mod c14;
 pub mod c15;
@@ -35,6 +36,7 @@ pub fn lookup(id: &str) -> Option<Entry> {
         "C09" => Entry { id: "C09", check: c09::check, replay: c09::replay },
         "C10" => Entry { id: "C10", check: c10::check, replay: c10::replay },
         "C11" => Entry { id: "C11", check: c11::check, replay: c11::replay },
+        "C12" => Entry { id: "C12", check: c12::check, replay: c12::replay },
         "C13" => Entry { id: "C13", check: c13::check, replay: c13::replay },
         "C14" => Entry { id: "C14", check: c14::check, replay: c14::replay },
         "C15" => Entry { id: "C15", check: c15::check, replay: c15::replay },
